@@ -95,6 +95,9 @@ func ModOps(full bool) []Op {
 			if full || p == "a.com/x" {
 				add("AddReplace", p, ov, "../dir with space", "")
 			}
+			if p == "b.com/y" && ov == "" {
+				add("AddReplace", p, ov, "../it's \"here\"", "")
+			}
 			add("DropReplace", p, ov)
 		}
 	}
@@ -137,6 +140,7 @@ func WorkOps(full bool) []Op {
 		}
 		add("DropGodebug", k)
 	}
+	add("AddUse", "./it's", "")
 	for _, u := range []string{"./a", "./b", "./dir with space"} {
 		add("AddUse", u, "")
 		add("AddNewUse", u, "")
